@@ -21,6 +21,8 @@ var idiomNames = []string{
 	"idiom-op-to-interface", "idiom-tuple-map-key", "idiom-redeclare-swap",
 	"idiom-append-alias", "idiom-struct-self-assign", "idiom-pointer-swap",
 	"idiom-named-result-fresh", "idiom-chan-recv", "idiom-assert-fail-zero",
+	"idiom-range-int-bound", "idiom-method-value-receiver", "idiom-named-results-in-place",
+	"idiom-switch-empty",
 }
 
 func (g *Gen) idiomHelper(name, src string) {
@@ -249,6 +251,75 @@ func (g *Gen) idiomStmt(o *out, d int) {
 		o.line("\t%s = \"s%d\"", st, b)
 		o.line("\t%s, %s = %s.(string)", st, ok, n)
 		o.line("\tfmt.Println(\"it\", len(%s), %s)", st, ok)
+		o.line("}")
+	case 12: // the bound of a range over an integer is evaluated once
+		n, cn, i, n2 := g.name("v"), g.name("v"), g.name("i"), g.name("v")
+		o.line("{")
+		o.line("\t%s, %s := %d, 0", n, cn, a+2)
+		o.line("\tfor %s := range %s {", i, n)
+		o.line("\t\t%s--", n)
+		o.line("\t\t%s += %s", cn, i)
+		o.line("\t}")
+		o.line("\tfmt.Println(\"ir\", %s, %s)", cn, n)
+		o.line("\tfor %s := range uint8(%d) {", i, b%4)
+		o.line("\t\tfmt.Println(\"iu\", %s+1)", i)
+		o.line("\t}")
+		o.line("\tvar %s int64 = %d", n2, c%3)
+		o.line("\tfor %s := range %s {", i, n2)
+		o.line("\t\t%s += 2", n2)
+		o.line("\t\tfmt.Println(\"ij\", %s, %s)", i, n2)
+		o.line("\t}")
+		o.line("}")
+	case 13: // the receiver of a method value is evaluated with the method value
+		g.idiomType("idCell", "type idCell struct{ n int }\n")
+		g.idiomHelper("idCellGet", "func (c *idCell) get() int { return c.n }\n")
+		g.idiomHelper("idCellAdd", "func (c *idCell) add(d int) { c.n += d }\n")
+		g.idiomHelper("idCellVal", "func (c idCell) val() int { return c.n * 2 }\n")
+		cs, fs, p, f, v, i := g.name("v"), g.name("v"), g.name("v"), g.name("cl"), g.name("cl"), g.name("i")
+		o.line("{")
+		o.line("\t%s := []idCell{{%d}, {%d}, {%d}}", cs, a, b, c)
+		o.line("\tvar %s []func() int", fs)
+		o.line("\tfor %s := range %s {", i, cs)
+		o.line("\t\t%s = append(%s, %s[%s].get)", fs, fs, cs, i)
+		o.line("\t\t%s[%s].add(%s)", cs, i, i)
+		o.line("\t}")
+		o.line("\t%s := &%s[0]", p, cs)
+		o.line("\t%s, %s := %s.get, %s.val", f, v, p, p)
+		o.line("\t%s = &%s[2]", p, cs)
+		o.line("\t%s.add(10)", p)
+		o.line("\tfmt.Println(\"iy\", %s[0](), %s[1](), %s[2](), %s(), %s(), %s.get())", fs, fs, fs, f, v, p)
+		o.line("}")
+	case 14: // values of a return statement computed from the named results
+		g.idiomHelper("idStep", "func idStep(a int) (r, s int) {\n\tr = a\n\treturn r + 1, r * 2\n}\n")
+		g.idiomHelper("idFold", "func idFold(a, b int) (x, y, z int) {\n\tx, y, z = a, b, a+b\n\treturn y * 10, -z, x + y + z\n}\n")
+		g.idiomHelper("idDbl", "func idDbl(x int) int { return x * 2 }\n")
+		g.idiomHelper("idCross", "func idCross(a, b int) (x, y int) {\n\tx, y = a, b\n\treturn idDbl(y), idDbl(x)\n}\n")
+		g.idiomHelper("idText", "func idText(a int) (n int, t string) {\n\tn, t = a, \"zz\"\n\treturn len(t) + n, fmt.Sprint(n)\n}\n")
+		g.idiomHelper("idLate", "func idLate(a int) (x, y int) {\n\tdefer func() { x += 100 }()\n\tx, y = a, a+1\n\treturn y + 1, x + 1\n}\n")
+		switch g.n(0, 4, "npform") {
+		case 0:
+			o.line("fmt.Println(idStep(%d))", a)
+		case 1:
+			o.line("fmt.Println(idFold(%d, %d))", a, b)
+		case 2:
+			o.line("fmt.Println(idCross(%d, %d))", a, b)
+		case 3:
+			o.line("fmt.Println(idText(%d))", a)
+		default:
+			o.line("fmt.Println(idLate(%d))", a)
+		}
+	case 15: // a switch without clauses still runs its init statement and its tag
+		g.idiomHelper("idSay", "func idSay(x int) int {\n\tfmt.Println(\"is\", x)\n\treturn x\n}\n")
+		x := g.name("v")
+		o.line("switch %s := idSay(%d); %s + idSay(%d) {", x, a, x, b)
+		o.line("}")
+		o.line("switch idSay(%d); {", c)
+		o.line("}")
+		o.line("switch %s := idSay(%d); %s * 2 {", x, a, x)
+		o.line("case %d:", 2*a)
+		o.line("\tfmt.Println(\"is2\", %s)", x)
+		o.line("default:")
+		o.line("\tfmt.Println(\"isd\", %s)", x)
 		o.line("}")
 	default: // swaps through pointers and parentheses
 		p, q, x, y := g.name("v"), g.name("v"), g.name("v"), g.name("v")
